@@ -9,6 +9,7 @@ anchored internals of series/_hp.py:
   hpf   : trend and gap against the exact rational optimum                            1e-6 * scale
   cert  : residual of the implementation's trend in the exact normal equations (V)     bound stated below
   l1    : dual certificate of lonf's output (range of D', box, duality gap) (V)        bound stated below
+  dmat  : the difference matrices of _ell_one.py                                       exact
 Oracle (independent of the model, written from the property statement, numpy + exact Fractions): trend+gap=data,
 constraints met, perturbation test of the objective along feasible directions (random ones and the one pointing to
 an independently computed least-squares optimum), straight line unchanged, log=True == exp(hpf(log)), span only
@@ -23,6 +24,7 @@ import numpy as np
 import irispie as ir
 from irispie import dates as D
 from irispie.series import _hp as HPMOD
+from irispie.series import _ell_one as L1MOD
 
 from .common import Ctx, err_kind, rat_of_float, VERIF
 
@@ -777,6 +779,8 @@ def run_lonf_case(ctx: Ctx, case, rng, collect):
         if case.get("data_kind") == "line" and np.max(np.abs(tt - y)) > 1e-6 * sc:
             ctx.fail("lonf-straight-line", case, f"variant {k}: affine/constant data changed by {np.max(np.abs(tt - y)):.3e}")
         if collect is not None:
+            if k == 0:
+                collect.append(("dmat", f"dmat {order} {n}", mat_text(np.asarray(L1MOD._MATRIX_SETUP_DISPATCH[order](n)[1], dtype=float)), case))
             words = [str(order), str(case["lam"]), str(n)] + [rat_of_float(v) for v in y] + [rat_of_float(v) for v in tt] + [rat_of_float(v) for v in gg]
             collect.append(("l1", "l1 " + " ".join(words), {"scale": sc, "lam": lam, "n": n, "sumsq": float(np.sum(y * y))}, case))
         z = diff_matrix(order, n) @ tt
@@ -803,7 +807,7 @@ def compare_with_model(ctx: Ctx, collect):
     for (stream, line, want, case), rep in zip(collect, replies):
         ctx.streams_compared[stream] = ctx.streams_compared.get(stream, 0) + 1
         short = {"case": case, "request": line[:400]}
-        if stream in ("setup", "sys"):
+        if stream in ("setup", "sys", "dmat"):
             if rep != want:
                 ctx.disagree(stream, short, want[:600], rep[:600])
         elif stream == "hpf":
@@ -926,7 +930,7 @@ def run(ctx: Ctx):
     for case in corpus_cases():
         run_case(ctx, case, ctx.rng.fork("corpus"), collect)
         ctx.count("corpus cases")
-    generate(ctx, ctx.n(160, 900), ctx.n(30, 150), ctx.n(80, 500), collect)
+    generate(ctx, ctx.n(160, 2000), ctx.n(30, 300), ctx.n(80, 1000), collect)
     compare_with_model(ctx, collect)
 
 
